@@ -109,6 +109,16 @@ def c05_a(ctx: Ctx):
         else:
             out.append(ctx.viol(R, pi, a, f"the project path is stored as {canon(v)[:50]} (not made absolute): for Project('relative/dir') every document and job path is relative to the "
                                 "current working directory, which `with job:` changes, so later document writes fail or land elsewhere", construct=pi.qual + "|abs-path"))
+    wsn = [n for n in body_nodes(pi) if isinstance(n, ast.Assign) and any(canon(t) == "self._workspace" for t in n.targets)]
+    for a in wsn:
+        v = a.value
+        ok = isinstance(v, ast.Call) and common.ext_name(ctx, pi, v) == "os.path.join" and v.args and canon(v.args[0]) in ("self._path", "self.path")
+        k = pi.qual + "|workspace-from-abs-path"
+        if ok:
+            out.append(ctx.ok(R, pi, a, "the workspace path is built from the absolute project path", construct=k))
+        else:
+            out.append(ctx.viol(R, pi, a, f"the workspace path is {canon(v)[:50]}, not derived from the absolute project path: for Project('relative/dir') jobs and their documents are created relative "
+                                "to the current working directory, which `with job:` changes", construct=k))
     # other users of the file names
     jdoc = ctx.fold(ast.parse("Job.FN_DOCUMENT", mode="eval").body, None, ctx.prog.mod("signac.project"))
     pdoc = ctx.fold(ast.parse("Project.FN_DOCUMENT", mode="eval").body, None, ctx.prog.mod("signac.migration.v1_to_v2"))
@@ -247,4 +257,15 @@ def c05_d(ctx: Ctx):
     return res
 
 
-RULES = [c05_a, c05_b, c05_c, c05_d]
+@rule("C05-e")
+def c05_e(ctx: Ctx):
+    """Two handles on one project / job use the same file name: discovery does not resolve links (C19-c); a handle claims a known directory only after existence was established (C02-e)."""
+    from .c19 import c19_c
+    from .c02 import c02_e
+    res = [r for r in c19_c(ctx) if "symbolic" in r.detail or "resolves" in r.detail] + c02_e(ctx)
+    for r in res:
+        r.rule = "C05-e"
+    return res
+
+
+RULES = [c05_a, c05_b, c05_c, c05_d, c05_e]
